@@ -93,11 +93,12 @@ def work(args):
         res['status'] = 'nocompile'
     else:
         flagged = []
-        for p in ORDER:
-            rc, out = run(['/verif/bin/sxv', 'check', '-repo', S, '-p', p, '-out', S + '/.sxvout'], '/verif', 400)
-            if rc != 0:
-                flagged.append('%s(%d)' % (p, rc))
-                break  # one alarm is enough for this analysis
+        # every unit once (pseudo-property ALL); only a VIOLATION (exit 1) counts as flagged
+        rc, out = run(['/verif/bin/sxv', 'check', '-repo', S, '-p', 'ALL', '-out', S + '/.sxvout'], '/verif', 600)
+        if rc == 1:
+            flagged.append('ALL(1)')
+        elif rc != 0:
+            res['note'] = 'exit %d' % rc
         if flagged:
             res['status'] = 'flagged'
             res['flagged'] = flagged
